@@ -59,7 +59,8 @@ pub enum Event {
     /// `sync_data` is about to be issued / has returned.
     SyncBegin { file: FileKind },
     SyncEnd { file: FileKind },
-    Punch { off: usize, len: usize },
+    /// `fd` identifies the data file (punches may run on pool threads).
+    Punch { fd: i32, off: usize, len: usize },
     /// Bytes of the data file are about to be read on behalf of a region.
     /// `off`/`len` are relative to `region_start`; `region_len` is `meta().len()` now
     /// (usize::MAX when the site cannot name its region).
